@@ -480,3 +480,12 @@ def r02_10(ctx):
 
     r17_1(ctx)
     operand_order(ctx)  # ... and an operator node keeps its operands on the sides the source put them, with the operator that was written
+
+
+@rule("R02.11", "C02", "operands enter an operator with their own type and value: a conversion wraps its operand in a Cast whatever kind of node it is (a literal is not re-typed in place), and an immediate has the signedness of its letter in either case", min_instances=10)
+def r02_11(ctx):
+    from .c03 import init_a_cast_kind_independence
+    from .c07 import r07_5
+
+    init_a_cast_kind_independence(ctx)
+    r07_5(ctx)
